@@ -373,6 +373,8 @@ def check(prop, tier, seed, jobs=None, only=None):
         with ctx.Pool(jobs, maxtasksperchild=None) as pool:
             for i, r in zip(order, pool.imap(run_case, [args[i] for i in order], chunksize=max(1, len(args) // (jobs * 8)))):
                 results[i] = r
+            pool.close()
+            pool.join()
     return finish(prop, tier, seed, mod, cases, results, known, time.perf_counter() - t0)
 
 
